@@ -65,6 +65,6 @@ KERNELS = [
        doc="`State::init`: constant / key / nonce layout; slicing beyond the length and `unreachable!()` are the panic value "
            "(the byte strings are the extracted tables SALSA_CST16/32: `Props.C03` table theorems)"),
 ]
-HEADER = "import CxVerif.Impl.Salsa\nnamespace Cx.Extracted.KernelsSalsa\nopen Cx Cx.Impl Cx.Impl.Salsa\n"
+HEADER = "import CxVerif.Impl.Salsa\nnamespace Cx.Extracted.KernelsSalsa\nopen Cx Cx.Impl Cx.Impl.Salsa\nset_option autoImplicit false\n"
 FOOTER = "end Cx.Extracted.KernelsSalsa\n"
 LEAN_FILE = "KernelsSalsa"
